@@ -8,6 +8,7 @@ Oracle: the abstract triples the document was laid out from (rdflib's Turtle par
 the case is discarded and counted): set equality of (kind, IRI / bnode label / datatype) triples, and count.
 """
 import itertools
+import re
 from hypothesis import strategies as st
 from .. import sut
 from ..runner import ok, violation, known, discard
@@ -240,6 +241,16 @@ def build(case):
         # SPARQL-style directives (legal Turtle 1.1, outside the reader's dialect)
         lines_out = [("PREFIX" + ln[len("@prefix"):].rstrip()[:-1].rstrip()) if ln.startswith("@prefix")
                      else ("BASE" + ln[len("@base"):].rstrip()[:-1].rstrip()) if ln.startswith("@base") else ln for ln in lines_out]
+    if ood.get("drop_prefix") is not None:
+        # the declaration of a prefix that the body uses is left out: no reader can resolve such a name
+        # ('rdf:type' is accepted by the reader as a keyword, like 'a', whether or not rdf: is declared - a documented
+        # convenience, so the rdf prefix is never the one dropped)
+        used = [q for q in declared if q != "rdf" and re.search(r"(^|[\s^])%s:[A-Za-z0-9_]" % re.escape(q), body)]
+        if used:
+            q = used[ood["drop_prefix"] % len(used)]
+            lines_out = [ln for ln in lines_out if not ln.startswith("@prefix %s: " % q)]
+            if not re.search(r"^@prefix %s: " % re.escape(q), body, re.M):
+                labels.add("undeclared-prefix")
     sep_hb = " " if (ood.get("join_header") and lines_out and not lines_out[-1].startswith("#")) else "\n"
     doc = "\n".join(lines_out) + sep_hb + body + ("" if body.endswith("\n") else "\n")
     if any(o[0] == "lit" and any(pc in SPECIAL_PIECES for pc in o[3]) for s, p, o in triples):
@@ -353,6 +364,12 @@ def check_ood(case, doc, labels):
     try:
         rl = rdflib_parse(doc)
     except Exception:
+        if "undeclared-prefix" in labels:
+            # not Turtle at all: a name with an undeclared prefix denotes nothing, so whatever the reader yields is "different triples"
+            res, crash = read_doc(doc)
+            if crash is None:
+                return violation("a document using a prefix it never declares is read silently instead of raising\n%s\n yielded %s" % (doc, res[:4]), labels, True)
+            return ok(labels | {"probe-raised"}, True)
         return discard("ood-rejected-by-rdflib")
     res, crash = read_doc(doc)
     if crash is not None:
@@ -455,9 +472,10 @@ def cases(draw):
     if draw(st.integers(0, 3)) == 0:
         case["rebind"] = draw(ints)
     if draw(st.integers(0, 5)) == 0:
-        k = draw(st.integers(0, 3))
+        k = draw(st.integers(0, 4))
         n_raw = len(RAW_OBJECTS) + len(RAW_SUBJECTS)
-        case["ood"] = {"glue": draw(st.integers(0, 5)) if k == 0 else None,
+        case["ood"] = {"drop_prefix": draw(st.integers(0, 5)) if k == 4 else None,
+                       "glue": draw(st.integers(0, 5)) if k == 0 else None,
                        "raw_at": draw(st.integers(0, 2)) if k == 1 else None, "raw_obj": draw(st.integers(0, n_raw - 1)) if k == 1 else None,
                        "sparql_header": k == 2, "join_header": k == 3}
     return case
